@@ -331,18 +331,19 @@ def cases(tier):
     quick = tier == 'quick'
     names = ['same-read', 'same-change', 'distinct-read', 'ping2', 'unknown+read'] if quick else list(CALLERS)
     nans = 5 if quick else len(ANSWERS)
+    free = 2 if quick else 3
     for name in names:
         res.append({'name': f'{name}/sync', 'callers': CALLERS[name], 'shutdown': 'none', 'level': 'sync',
-                    'bound': 2, 'dev': 1 if quick else 2, 'total': 3 if quick else 4, 'free': 2 if quick else 3, 'nanswers': nans,
+                    'bound': 2, 'dev': 1, 'total': 3, 'free': free, 'nanswers': nans,
                     'reconnect': (not quick) and name == 'same-read'})
     for name in (['same-read', 'ping2'] if quick else names):
         res.append({'name': f'{name}/user-race', 'callers': CALLERS[name], 'shutdown': 'user-race', 'level': 'sync',
-                    'bound': 2, 'dev': 1, 'total': 2 if quick else 3, 'free': 2 if quick else 3, 'nanswers': nans})
+                    'bound': 2, 'dev': 1, 'total': 2 if quick else 3, 'free': 2, 'nanswers': nans})
     res.append({'name': 'retry-after-timeout', 'callers': [CALLERS['same-read'][0]], 'shutdown': 'none', 'level': 'sync', 'retry': True,
-                'bound': 1, 'dev': 1, 'total': 2, 'free': 2, 'nanswers': nans})
+                'bound': 1 if quick else 2, 'dev': 1, 'total': 2 if quick else 3, 'free': 2, 'nanswers': nans})
     for name in (['same-read'] if quick else ['same-read', 'same-change', 'unknown+read']):
         res.append({'name': f'{name}/line', 'callers': CALLERS[name], 'shutdown': 'none', 'level': 'line',
-                    'bound': 1 if quick else 2, 'dev': 1, 'total': 2 if quick else 3, 'free': 2, 'nanswers': nans})
+                    'bound': 1 if quick else 2, 'dev': 1 if quick else 0, 'total': 2, 'free': 2, 'nanswers': nans})
     return res
 
 
